@@ -392,6 +392,27 @@ def cvc5_decide(smt2, secs):
         return "error"
 
 
+def _watchdog(prop, tier):
+    """a check must end: code under test that never returns (a changed library routine that loops for ever) is a checker
+    error (exit 3, nothing claimed), not a hanging run.  Limits are several times the slowest check of the tier."""
+    import threading
+    limit = int(os.environ.get("VERIF_WATCHDOG_S", "0") or 0) or (2400 if tier == "quick" else 4 * 3600)
+
+    def fire():
+        sys.stdout.write("CHECKER-ERROR property=%s the %s check did not finish within %d s (code under test that does not "
+                         "return, or an overloaded machine); nothing is claimed\n" % (prop, tier, limit))
+        sys.stdout.flush()
+        try:
+            import signal
+            os.killpg(os.getpgid(0), signal.SIGTERM) if os.environ.get("VERIF_WATCHDOG_KILLPG") else None
+        except Exception:
+            pass
+        os._exit(3)
+    t = threading.Timer(limit, fire)
+    t.daemon = True
+    t.start()
+
+
 def main(argv=None):
     import argparse
     ap = argparse.ArgumentParser()
@@ -406,6 +427,7 @@ def main(argv=None):
     if a.replay:
         return replay(cfg, a.replay)
     rep = Report(a.prop, a.tier, seed, cfg.LEVEL)
+    _watchdog(a.prop, a.tier)
     try:
         if getattr(cfg, "HARNESS_MODULES", None):
             run_pyvc(cfg, rep, a.tier)
